@@ -247,11 +247,12 @@ def run_shard(cfg):
     idx = 0
     from .c05 import big_trees, huge_trees
 
+    UB = zoo.universe(UNIV + ["ZN", "ZJ"])
     for j, d in enumerate(big_trees() + huge_trees()):
         if j % cfg["of"] == cfg["k"]:
             rec.rank = 10**9 + j
             rec.count("big_trees")
-            check_tree(U, d, rec)
+            check_tree(UB, d, rec)
     for n in range(1, cfg["n"] + 1):
         for d in U.trees(n):
             mine = idx % cfg["of"] == cfg["k"]
@@ -272,5 +273,5 @@ def run_shard(cfg):
 def replay(case, cfg):
     rec = Rec(cfg)
     at = tuple((f, i) for f, i in case["at"]) if case.get("at") is not None else None
-    check_tree(zoo.universe(UNIV), case["tree"], rec, route=case.get("route", "direct"), at=at)
+    check_tree(zoo.universe(UNIV + ["ZN", "ZJ"]), case["tree"], rec, route=case.get("route", "direct"), at=at)
     return rec.result()["violations"]
